@@ -14,6 +14,9 @@ class CustomInit(Exception):
     def __init__(self, a, b=2): super().__init__(a, b); self.a = a
 class KwOnlyInit(Exception):
     def __init__(self, *, code): super().__init__(code); self.code = code
+class FromResponse(Exception):
+    """constructor signature differs from the stored args: rebuilding it from its args raises AttributeError (not TypeError)"""
+    def __init__(self, response): super().__init__(response.status)
 class Outer:
     class Nested(ValueError): pass
 class MyBase(BaseException): pass
@@ -30,7 +33,8 @@ def alphabet():
         return Local
     Dyn = type('Dyn', (RuntimeError,), {'__module__': 'nowhere.at.all'})
     classes = {'ValueError': lambda *a: ValueError(*a), 'ModLevel': lambda *a: ModLevel(*a), 'Nested': lambda *a: Outer.Nested(*a), 'Local': lambda *a: local_cls()(*a), 'Dyn': lambda *a: Dyn(*a),
-               'CustomInit': lambda *a: CustomInit(*(a[:2] or (1,))), 'KwOnly': lambda *a: KwOnlyInit(code=a[0] if a else 0), 'MyBase': lambda *a: MyBase(*a), 'KeyError': lambda *a: KeyError(*a)}
+               'CustomInit': lambda *a: CustomInit(*(a[:2] or (1,))), 'KwOnly': lambda *a: KwOnlyInit(code=a[0] if a else 0), 'MyBase': lambda *a: MyBase(*a), 'KeyError': lambda *a: KeyError(*a),
+               'FromResponse': lambda *a: FromResponse(type('Resp', (), {'status': a[0] if a else 0})())}
     args = {'none': (), 'str': ('boom',), 'mixed': (1, 'x', None, 2.5, True), 'nested': ([1, {'k': [2]}],), 'bytes': (b'\xff\x00',), 'set': ({1, 2},), 'callable': (len,), 'badrepr': (BadRepr(),),
             'unpicklable': (Unpicklable(),), 'surrogate': ('\ud800',), 'inf': (float('inf'),), 'nan': (float('nan'),), 'intkey': ({1: 2},), 'tuple': ((1, 2),), 'big': (2 ** 80,)}
     return classes, args
@@ -196,7 +200,7 @@ def run(sc):
     if 'gate' in parts:
         f, k = gate(); fails += f; n += k
     # group identical clause shapes so that a known finding can be keyed by its specific input
-    return {'reproduced': bool(fails), 'runs': n, 'n_failures': len(fails), 'failures': fails[:400], 'bound': 'graphs: depth <= 3 over 9 classes x 15 argument kinds x link shapes; gate: 25 names x 3 nesting levels x 3 arg tuples'}
+    return {'reproduced': bool(fails), 'runs': n, 'n_failures': len(fails), 'failures': fails[:400], 'bound': 'graphs: depth <= 3 over 10 classes x 15 argument kinds x link shapes; gate: 25 names x 3 nesting levels x 3 arg tuples'}
 
 if __name__ == '__main__':
     sc = json.load(open(sys.argv[1])) if len(sys.argv) > 1 else {}
